@@ -86,20 +86,34 @@ def propagate(el, c, tau):
     e = min(max(e, 1e-6), 1 - 1e-6)          # AIAA-2006-6753 clamp (inactive on the report's range)
     beta2 = 1 - e * e
     axN = e * math.cos(w)
-    ILL = A30 * math.sin(i0) / (8 * K2 * a * beta2) * axN * (3 + 5 * th) / (1 + th)
+    # 1 + cos i0 is evaluated as 2 cos^2 (i0/2): in binary64 the literal form loses every digit near 180 deg (the exact,
+    # 60-digit run of this same text showed the reference itself 1 cm off at 179.99 deg)
+    ILL = A30 * math.sin(i0) / (8 * K2 * a * beta2) * axN * (3 + 5 * th) / (2 * math.cos(i0 / 2) ** 2)
     ayNL = A30 * math.sin(i0) / (4 * K2 * a * beta2)
     ILT = IL + ILL
     ayN = e * math.sin(w) + ayNL
     U = math.fmod(ILT - Om, TWOPI)
     # Kepler: U = Ew - axN sin Ew + ayN cos Ew  (monotone in Ew since eL < 1)
+    # bracket first (the root is within eL < 1 of U), bisect, then polish with Newton steps that are only accepted inside the
+    # bracket: plain Newton from U can wander for eL close to 1 (the accepted high-eccentricity island)
+    def kf(x):
+        return U - x + axN * math.sin(x) - ayN * math.cos(x)
+    lo, hi = U - 1.0, U + 1.0          # kf(lo) > 0 > kf(hi)
     Ew = U
-    for _ in range(60):
-        f = U - Ew + axN * math.sin(Ew) - ayN * math.cos(Ew)
+    for _ in range(200):
+        f = kf(Ew)
+        if f > 0:
+            lo = Ew
+        else:
+            hi = Ew
         df = 1 - axN * math.cos(Ew) - ayN * math.sin(Ew)
-        step = f / df
-        Ew += step
-        if abs(step) < 1e-15:
+        nxt = Ew + f / df
+        if not (lo < nxt < hi):
+            nxt = 0.5 * (lo + hi)
+        if abs(nxt - Ew) < 1e-15 or hi - lo < 1e-15:
+            Ew = nxt
             break
+        Ew = nxt
     ecosE = axN * math.cos(Ew) + ayN * math.sin(Ew)
     esinE = axN * math.sin(Ew) - ayN * math.cos(Ew)
     eL2 = axN ** 2 + ayN ** 2
